@@ -149,6 +149,11 @@ def mutations(M, rng):
         m = clone(); d = pick_def(m, "union"); d["members"].append(d["members"][0]); out.append(("duplicate-union-member", m, {}))
     if enums:
         m = clone(); d = pick_def(m, "enum"); d["values"].append(dict(d["values"][0])); out.append(("duplicate-enum-value", m, {}))
+        # ... the second occurrence decorated differently (deprecated / not): still the same NAME twice
+        m = clone(); d = pick_def(m, "enum"); dup = dict(d["values"][0]); dup["deprecated"] = None if dup.get("deprecated") is not None else "use the other one"
+        d["values"].insert(rng.randrange(1, len(d["values"]) + 1), dup); out.append(("duplicate-enum-value/other-decoration", m, {}))
+        m = clone(); d = pick_def(m, "enum"); dup = dict(d["values"][-1]); dup["deprecated"] = None if dup.get("deprecated") is not None else "No longer supported"
+        m["exts"].append({"kind": "enum", "name": d["name"], "values": [dup]}); out.append(("extension-duplicate-enum-value/other-decoration", m, {}))
         m = clone(); d = pick_def(m, "enum"); m["exts"].append({"kind": "enum", "name": d["name"], "values": [dict(d["values"][0])]}); out.append(("extension-duplicate-enum-value", m, {}))
     m = clone(); m["defs"].append(copy.deepcopy(rng.choice(m["defs"]))); out.append(("duplicate-type-definition", m, {}))
     # the same NAME defined twice with DIFFERENT kinds, in both orders (a later enum / input / union / scalar / object of that name)
